@@ -19,6 +19,7 @@
 //! `> ALL`) into boolean expressions built from `EXISTS` subqueries
 //! that capture SQL three-valued logic.
 
+use crate::utils::NamePreserver;
 use crate::{OptimizerConfig, OptimizerRule};
 use datafusion_common::tree_node::{Transformed, TreeNode};
 use datafusion_common::{Column, DFSchema, ExprSchema, Result, ScalarValue, plan_err};
@@ -57,8 +58,12 @@ impl RewriteSetComparison {
                 &target.schema(),
             )?);
         }
+        // keep the output name of every rewritten expression (`a > ALL (..)` must not become `CASE ..`)
+        let name_preserver = NamePreserver::new(&plan);
         plan.map_expressions(|expr| {
+            let original_name = name_preserver.save(&expr);
             expr.transform_up(|expr| rewrite_set_comparison(expr, &schema))
+                .map(|t| t.update_data(|e| original_name.restore(e)))
         })
     }
 }
